@@ -809,11 +809,11 @@ void generate_output(Rng &r, const GenOpts &g, Plan &p, bool c17) {
     for (long i = 0; i < nh; i++) {
         int k = (int) r.below(c17 ? 3 : 9);
         if (c17) k = pickv<int>({0, 0, 3}, r);
-        if (!c17) k = pickv<int>({0, 0, 0, 1, 2, 3, 4, 5, 6}, r);
+        if (!c17) k = pickv<int>({0, 0, 0, 1, 2, 3, 4, 5, 6, 7}, r);   // 7: a command (no '?') whose handler emits items all the same
         if (lazy_sep_switch && (k == 1 || k == 2 || k == 3 || k == 4)) k = 0;
         kinds.push_back(k);
         bool query = k <= 4;
-        bool ret_err = k == 2 || k == 3 || k == 6;
+        bool ret_err = k == 2 || k == 3 || k == 6 || (k == 7 && r.chance(1, 4));
         p.ops.push_back(Op("h", {query ? 1 : 0, ret_err ? 1 : 0}));
         long ni = (k == 1 || k == 2 || k == 5 || k == 6) ? 0 : r.range(1, 4);
         if (k == 4 && r.chance(1, 2)) ni = 0;
@@ -861,7 +861,7 @@ void generate_output(Rng &r, const GenOpts &g, Plan &p, bool c17) {
                 size_t i = r.below((uint64_t) nh);
                 bool query = kinds[i] <= 4;
                 msg += (query ? "Q" : "C") + std::to_string(i) + (query ? "?" : "");
-                if (!c17 && r.chance(1, 20)) msg += " 1";   // surplus parameter: -108 after the handler
+                if (!c17 && r.chance(1, kinds[i] == 7 ? 5 : 20)) msg += " 1";   // surplus parameter: -108 after the handler
             }
         }
         static const char *term[] = {"\n", "\r\n", "\r"};
